@@ -126,13 +126,12 @@ Theorem C01_eval_bindings_deletable_refuted :
 Proof. exists 1%Z. repeat split; vm_compute; congruence. Qed.
 Print Assumptions C01_eval_bindings_deletable_refuted.
 
-(* otto's deviation on the arguments object of a function with a repeated parameter name (pinned probes 30-35 of the
-   correspondence run; 33 and 34 are controls that agree) *)
-Theorem C01_arguments_dup_param_refuted :
-  exists id, C01.Corr.pin_model id <> C01.Corr.pin_spec id /\
-             C01.Corr.pin_model 33 = C01.Corr.pin_spec 33 /\ C01.Corr.pin_model 34 = C01.Corr.pin_spec 34.
-Proof. exists 30%Z. repeat split; vm_compute; congruence. Qed.
-Print Assumptions C01_arguments_dup_param_refuted.
+(* the arguments object of a function with a repeated parameter name (pinned probes 30-35 of the correspondence run):
+   since bf94f2a the model of otto is the ES5 table, so any other observation is a violation *)
+Theorem C01_arguments_dup_param_agrees :
+  forall id, (30 <=? id)%Z && (id <=? 35)%Z = true -> C01.Corr.pin_model id = C01.Corr.pin_spec id.
+Proof. intros id H. unfold C01.Corr.pin_model, C01.Corr.pin_spec. rewrite H. reflexivity. Qed.
+Print Assumptions C01_arguments_dup_param_agrees.
 
 (* the ES5 side of that table is what the reference semantics computes (10.6 step 11.c: a name is mapped once):
    function pick(a, b, a) { log(arguments[0]); a = 9; log(arguments[0]); log(arguments[2]); } pick(1, 2, 3) *)
